@@ -48,6 +48,7 @@ pub fn check_pair(rep: &mut Rep, a: Duration, b: Duration) {
     if nt {
         rep.nt(h64(&[pa.0 as u64, pa.1, pb.0 as u64, pb.1]));
     }
+    rep.log_event("cmp", || format!("\"a\":[{},{}],\"b\":[{},{}],\"want\":{}", pa.0, pa.1, pb.0, pb.1, want as i8));
     rep.sample("pair", || format!("{} vs {} => {:?}", fmt_parts(pa), fmt_parts(pb), want));
     let res = guard(|| {
         (
